@@ -61,6 +61,11 @@ def special_line_world(rng, g):
         if kind == "subducting plate" and rng.random() < 0.3:
             # incl. truncations that extend the slab above its surface by more than its thickness (the culling bounds must cover that side)
             segs[-1]["top truncation"] = [rng.choice([-50e3, -10e3, 20e3, -300e3, -500e3])]
+            if rng.random() < 0.5:
+                # two different values within the segment: the bounds have to cover the LARGER upward extension
+                segs[-1]["top truncation"].append(rng.choice([-250e3, -20e3, 0, -400e3, -120e3]))
+                if rng.random() < 0.5:
+                    segs[-1]["top truncation"].reverse()
     f = {"model": kind, "name": "L", "coordinates": pts, "dip point": dip, "segments": segs,
          "min depth": rng.choice([0, 0, 50e3, 150e3, 300e3]), "max depth": rng.choice([1e7, 700e3]),
          "composition models": [{"model": "uniform", "compositions": [0]}], "temperature models": [{"model": "uniform", "temperature": 600}]}
@@ -155,6 +160,32 @@ def oracle(seed, tier):
                     d = rng.choice([1e3, 4e3, 9e3])
                     qs.append(([P[0] + ux * L * t - uy * o, P[1] + uy * L * t + ux * o, 1000e3 - d], d))
                     o += 3e3
+        worlds.append((path, w, _Cart(), qs))
+    # halo slabs: a negative top truncation with two different values in one segment extends the slab above its surface by more than its thickness, more at one end than at
+    # the other; short, moderately dipping slabs whose halo reaches beyond (length + thickness) horizontally and upwards; lattice over the whole reach on two cross sections
+    for hi in range(budget(tier, 4, 30)):
+        fixed = [[(300e3, 50e3, [-50e3, -250e3], 45)], [(200e3, 30e3, [-400e3, 0], 30)], [(150e3, 50e3, [-120e3, -400e3], 60)], [(150e3, 50e3, [-250e3, -50e3], 45), (150e3, 30e3, [-50e3, -250e3], 30)]]
+        if hi < len(fixed):
+            cfg = fixed[hi]
+        else:
+            cfg = [(rng.choice([150e3, 200e3, 300e3]), rng.choice([30e3, 50e3]), rng.sample([-50e3, -250e3, -400e3, -120e3, 0], 2), rng.choice([30, 45, 60])) for _ in range(rng.choice([1, 1, 2]))]
+        segs = [{"length": l, "thickness": [t], "top truncation": tt, "angle": [a]} for (l, t, tt, a) in cfg]
+        w = {"version": "1.1", "features": [{"model": "subducting plate", "name": "h", "coordinates": [[0, -500e3], [0, 500e3]], "dip point": [rng.choice([1e7, -1e7]), 0], "segments": segs,
+                                             "min depth": rng.choice([0, 0, 30e3]),
+                                             "temperature models": [{"model": "uniform", "temperature": 600, "min distance slab top": -1e6}],
+                                             "composition models": [{"model": "uniform", "compositions": [0], "min distance slab top": -1e6}]}]}
+        path = os.path.join(wdir, "halo_%d.wb" % hi)
+        json.dump(w, open(path, "w"))
+        sgn = 1 if w["features"][0]["dip point"][0] > 0 else -1
+        reach = sum(sg["length"] for sg in segs) + 450e3
+        qs = []
+        x = -200e3
+        while x <= reach:
+            d = 0.0
+            while d <= reach:
+                qs.append(([sgn * x, rng.choice([0.0, 200e3]), 1000e3 - d], d))
+                d += 15e3
+            x += 15e3
         worlds.append((path, w, _Cart(), qs))
     lines, meta = [], []
     props = [(4, 0, 0), (1, 0, 0), (2, 0, 0), (2, 1, 0), (5, 0, 0)]
